@@ -221,6 +221,30 @@ def run_kani_set(pl, tier, obligations, assumptions, meta, filters=None, tag="k"
     return ov, res
 
 
+def profile_scan(assumptions):
+    """C17 reduction, checked syntactically on the current tree: the only constructs whose behaviour depends on the build
+    profile are debug_assert* and arithmetic-overflow checks.  An explicit cfg on debug_assertions / overflow_checks would
+    be a third kind that the obligations do not model: then the reduction (and the property) is UNDECIDED."""
+    bad, listed = [], []
+    src = os.path.join(common.REPO, "src")
+    for dp, dn, fns in os.walk(src):
+        for f in sorted(fns):
+            if not f.endswith(".rs"):
+                continue
+            rel = os.path.relpath(os.path.join(dp, f), common.REPO)
+            for i, ln in enumerate(open(os.path.join(dp, f), errors="replace").read().split("\n"), 1):
+                code = ln.split("//")[0]
+                if re.search(r"cfg!?\s*\(\s*(not\s*\(\s*)?(debug_assertions|overflow_checks)", code) or "unchecked_" in code:
+                    bad.append("%s:%d: %s" % (rel, i, ln.strip()[:100]))
+                elif re.search(r"\b(wrapping|overflowing|saturating|checked)_\w+\(", code):
+                    listed.append("%s:%d: %s" % (rel, i, ln.strip()[:80]))
+    assumptions.append("profile scan: profile-independent arithmetic helpers in the source (same behaviour in every profile): " + ("; ".join(listed) or "none"))
+    if bad:
+        return Obligation("S:profile_scan", "scan", "profile-dependent constructs", "undecided",
+                          {"reason": "explicit profile-dependent construct(s) outside the C17 reduction: " + "; ".join(bad[:5])}, 0, "whole source tree")
+    return Obligation("S:profile_scan", "scan", "profile-dependent constructs", "ok", {}, 0, "whole source tree (syntactic)")
+
+
 # ------------------------------------------------------------------ decide
 def known_match(known, pid, ob, witness=""):
     for k in known.get("findings", []):
@@ -281,6 +305,8 @@ def check(pid, tier, record_baseline=False):
                 obligations.append(o)
         if kov[0] is None:
             kov[0] = ov2
+    if pl.get("profile_scan"):
+        obligations.append(profile_scan(assumptions))
     obligations.sort(key=lambda o: o.id)
 
     baseline = load_json(BASELINE_PATH, {})
@@ -386,7 +412,7 @@ def check(pid, tier, record_baseline=False):
         "by_backend": {b: {"obligations": len([o for o in obligations if o.backend == b]),
                            "discharged": len([o for o in discharged if o.backend == b]),
                            "solver_time_s": round(sum(o.time_s for o in obligations if o.backend == b), 1)}
-                       for b in ("verus", "kani", "ground")},
+                       for b in ("verus", "kani", "ground", "scan")},
         "scopes": pl.get("scope_note", ""),
         "solver_time_s": round(smt, 1),
         "verus_runs": meta["verus_runs"],
